@@ -178,7 +178,7 @@ func eqPairsMod(cmpID string, a, b []pair) bool {
 	return true
 }
 
-func runIdx[S enumIdx[S]](c Case, recv S, it func(S) []pair) (pbt.Info, error) {
+func runIdx[S enumIdx[S]](c Case, recv S, fresh func() S, it func(S) []pair) (pbt.Info, error) {
 	var info pbt.Info
 	seq := it(recv) // (index, value) pairs of the iterator
 	vals := recv.Values()
@@ -263,7 +263,9 @@ func runIdx[S enumIdx[S]](c Case, recv S, it func(S) []pair) (pbt.Info, error) {
 	if any(sel) == any(recv) {
 		return info, fmt.Errorf("%s: Select returned the receiver itself", c.Kind)
 	}
-	if want := arrangeIdx(c.Kind, c.Cmp, selStream); !eqMod(c.Cmp, sel.Values(), want) {
+	// the selected elements are the receiver's own (pairwise distinct under its
+	// comparator), so the result is determined exactly
+	if want := arrangeIdx(c.Kind, c.Cmp, selStream); !eqInts(sel.Values(), want) {
 		return info, fmt.Errorf("%s: Select(%+v) over %v holds %v, want %v", c.Kind, c.P, seq, sel.Values(), want)
 	}
 	if err := unchanged("Select"); err != nil {
@@ -286,6 +288,16 @@ func runIdx[S enumIdx[S]](c Case, recv S, it func(S) []pair) (pbt.Info, error) {
 	if want := arrangeIdx(c.Kind, c.Cmp, mapStream); !eqMod(c.Cmp, mapped.Values(), want) {
 		return info, fmt.Errorf("%s: Map(%+v) over %v holds %v, want %v (inserting %v in iteration order)", c.Kind, c.M, seq, mapped.Values(), want, mapStream)
 	}
+	// "built by inserting the mapped elements in iteration order": exactly what the
+	// same insertions into a new container of the same configuration give (which of
+	// several equal-comparing values survives included)
+	ref := fresh()
+	for _, x := range mapStream {
+		ref.Add(x)
+	}
+	if !eqInts(mapped.Values(), ref.Values()) {
+		return info, fmt.Errorf("%s: Map(%+v) over %v holds %v, but adding the mapped elements %v one by one to a new container gives %v", c.Kind, c.M, seq, mapped.Values(), mapStream, ref.Values())
+	}
 	if err := unchanged("Map"); err != nil {
 		return info, err
 	}
@@ -302,6 +314,12 @@ func runIdx[S enumIdx[S]](c Case, recv S, it func(S) []pair) (pbt.Info, error) {
 	}
 	if want := arrangeIdx(c.Kind, c.Cmp, mapStream); !eqMod(c.Cmp, mapped.Values(), want) {
 		return info, fmt.Errorf("%s: after adding %v to the Map result it holds %v, want %v", c.Kind, c.Post, mapped.Values(), want)
+	}
+	for _, x := range c.Post {
+		ref.Add(x)
+	}
+	if !eqInts(mapped.Values(), ref.Values()) {
+		return info, fmt.Errorf("%s: after adding %v to the Map result it holds %v, the reference container %v", c.Kind, c.Post, mapped.Values(), ref.Values())
 	}
 	if err := unchanged("mutating the derived containers"); err != nil {
 		return info, err
@@ -408,7 +426,7 @@ func pairsOf[S enumKey[S]](s S) []pair {
 	return out
 }
 
-func runKey[S enumKey[S]](c Case, recv S, it func(S) []pair) (pbt.Info, error) {
+func runKey[S enumKey[S]](c Case, recv S, fresh func() S, it func(S) []pair) (pbt.Info, error) {
 	var info pbt.Info
 	seq := it(recv)
 	cont := pairsOf(recv)
@@ -483,7 +501,7 @@ func runKey[S enumKey[S]](c Case, recv S, it func(S) []pair) (pbt.Info, error) {
 	if any(sel) == any(recv) {
 		return info, fmt.Errorf("%s: Select returned the receiver itself", c.Kind)
 	}
-	if want, got := arrangeKey(c.Kind, c.Cmp, selStream), pairsOf(sel); !eqPairsMod(c.Cmp, got, want) {
+	if want, got := arrangeKey(c.Kind, c.Cmp, selStream), pairsOf(sel); !slices.Equal(got, want) && len(got)+len(want) > 0 {
 		return info, fmt.Errorf("%s: Select(%+v) over %v holds %v, want %v", c.Kind, c.P, seq, got, want)
 	}
 	if err := unchanged("Select"); err != nil {
@@ -499,6 +517,13 @@ func runKey[S enumKey[S]](c Case, recv S, it func(S) []pair) (pbt.Info, error) {
 	}
 	if want, got := arrangeKey(c.Kind, c.Cmp, mapStream), pairsOf(mapped); !eqPairsMod(c.Cmp, got, want) {
 		return info, fmt.Errorf("%s: Map(%+v) over %v holds %v, want %v (repeated Put of %v)", c.Kind, c.M, seq, got, want, mapStream)
+	}
+	ref := fresh()
+	for _, e := range mapStream {
+		ref.Put(e.k, e.v)
+	}
+	if got, want := pairsOf(mapped), pairsOf(ref); !slices.Equal(got, want) && len(got)+len(want) > 0 {
+		return info, fmt.Errorf("%s: Map(%+v) over %v holds %v, but putting the mapped pairs %v one by one into a new container gives %v", c.Kind, c.M, seq, got, mapStream, want)
 	}
 	if mapped.Size() != len(arrangeKey(c.Kind, c.Cmp, mapStream)) {
 		return info, fmt.Errorf("%s: Map result Size()=%d, want %d", c.Kind, mapped.Size(), len(arrangeKey(c.Kind, c.Cmp, mapStream)))
@@ -516,6 +541,12 @@ func runKey[S enumKey[S]](c Case, recv S, it func(S) []pair) (pbt.Info, error) {
 	}
 	if want, got := arrangeKey(c.Kind, c.Cmp, mapStream), pairsOf(mapped); !eqPairsMod(c.Cmp, got, want) {
 		return info, fmt.Errorf("%s: after putting %v into the Map result it holds %v, want %v", c.Kind, c.Post, got, want)
+	}
+	for i, x := range c.Post {
+		ref.Put(x, 1000+i)
+	}
+	if got, want := pairsOf(mapped), pairsOf(ref); !slices.Equal(got, want) && len(got)+len(want) > 0 {
+		return info, fmt.Errorf("%s: after putting %v into the Map result it holds %v, the reference container %v", c.Kind, c.Post, got, want)
 	}
 	if err := unchanged("mutating the derived containers"); err != nil {
 		return info, err
@@ -544,7 +575,7 @@ func check(c Case) (pbt.Info, error) {
 	switch c.Kind {
 	case "arraylist":
 		l := arraylist.New(c.Adds...)
-		return runIdx(c, l, func(l *arraylist.List[int]) []pair {
+		return runIdx(c, l, func() *arraylist.List[int] { return arraylist.New[int]() }, func(l *arraylist.List[int]) []pair {
 			var out []pair
 			for it := l.Iterator(); it.Next(); {
 				out = append(out, pair{it.Index(), it.Value()})
@@ -553,7 +584,7 @@ func check(c Case) (pbt.Info, error) {
 		})
 	case "singlylinkedlist":
 		l := singlylinkedlist.New(c.Adds...)
-		return runIdx(c, l, func(l *singlylinkedlist.List[int]) []pair {
+		return runIdx(c, l, func() *singlylinkedlist.List[int] { return singlylinkedlist.New[int]() }, func(l *singlylinkedlist.List[int]) []pair {
 			var out []pair
 			for it := l.Iterator(); it.Next(); {
 				out = append(out, pair{it.Index(), it.Value()})
@@ -562,7 +593,7 @@ func check(c Case) (pbt.Info, error) {
 		})
 	case "doublylinkedlist":
 		l := doublylinkedlist.New(c.Adds...)
-		return runIdx(c, l, func(l *doublylinkedlist.List[int]) []pair {
+		return runIdx(c, l, func() *doublylinkedlist.List[int] { return doublylinkedlist.New[int]() }, func(l *doublylinkedlist.List[int]) []pair {
 			var out []pair
 			it := l.Iterator()
 			for it.Next() {
@@ -573,7 +604,7 @@ func check(c Case) (pbt.Info, error) {
 	case "treeset":
 		s := treeset.NewWith(cmpF, c.Adds...)
 		s.Remove(c.Rems...)
-		return runIdx(c, s, func(s *treeset.Set[int]) []pair {
+		return runIdx(c, s, func() *treeset.Set[int] { return treeset.NewWith(cmpF) }, func(s *treeset.Set[int]) []pair {
 			var out []pair
 			it := s.Iterator()
 			for it.Next() {
@@ -584,7 +615,7 @@ func check(c Case) (pbt.Info, error) {
 	case "linkedhashset":
 		s := linkedhashset.New(c.Adds...)
 		s.Remove(c.Rems...)
-		return runIdx(c, s, func(s *linkedhashset.Set[int]) []pair {
+		return runIdx(c, s, func() *linkedhashset.Set[int] { return linkedhashset.New[int]() }, func(s *linkedhashset.Set[int]) []pair {
 			var out []pair
 			it := s.Iterator()
 			for it.Next() {
@@ -600,7 +631,7 @@ func check(c Case) (pbt.Info, error) {
 		for _, k := range c.Rems {
 			m.Remove(k)
 		}
-		return runKey(c, m, func(m *treemap.Map[int, int]) []pair {
+		return runKey(c, m, func() *treemap.Map[int, int] { return treemap.NewWith[int, int](cmpF) }, func(m *treemap.Map[int, int]) []pair {
 			var out []pair
 			for it := m.Iterator(); it.Next(); {
 				out = append(out, pair{it.Key(), it.Value()})
@@ -615,7 +646,7 @@ func check(c Case) (pbt.Info, error) {
 		for _, k := range c.Rems {
 			m.Remove(k)
 		}
-		return runKey(c, m, func(m *linkedhashmap.Map[int, int]) []pair {
+		return runKey(c, m, func() *linkedhashmap.Map[int, int] { return linkedhashmap.New[int, int]() }, func(m *linkedhashmap.Map[int, int]) []pair {
 			var out []pair
 			for it := m.Iterator(); it.Next(); {
 				out = append(out, pair{it.Key(), it.Value()})
@@ -630,7 +661,7 @@ func check(c Case) (pbt.Info, error) {
 		for _, k := range c.Rems {
 			m.Remove(k)
 		}
-		return runKey(c, m, func(m *treebidimap.Map[int, int]) []pair {
+		return runKey(c, m, func() *treebidimap.Map[int, int] { return treebidimap.NewWith[int, int](cmpF, cmpF) }, func(m *treebidimap.Map[int, int]) []pair {
 			var out []pair
 			for it := m.Iterator(); it.Next(); {
 				out = append(out, pair{it.Key(), it.Value()})
